@@ -26,7 +26,7 @@ EXPECT = {
     "irp_in_serial": "KnownAttributes",
 }
 # mutants per class in the quick tier (thorough: x5)
-CAPS = {"undeclared": 16, "arity": 24, "strat": 22, "rebind": 24, "macro_rec": 14, "nested_include": 5,
+CAPS = {"undeclared": 16, "arity": 24, "strat": 22, "rebind": 24, "macro_rec": 24, "nested_include": 5,
         "ds_on_lattice": 5, "two_ds": 5, "unknown_prog_attr": 5, "unknown_rel_attr": 5, "irp_in_serial": 3}
 DS_RUST = {"rel": "ascent::rel", "eqrel": "ascent_byods_rels::eqrel", "trrel": "ascent_byods_rels::trrel",
            "trrel_uf": "ascent_byods_rels::trrel_uf"}
@@ -420,6 +420,26 @@ class Gen:
         p = self.copy()
         p.setdefault("macros", []).extend(copy.deepcopy(selfm))
         self.add("macro_rec", "self new macro never invoked", f"new macro {name} invokes itself; no rule invokes it", p)
+        # the recursive invocation in other syntactic positions of the (never invoked) macro body: as a later
+        # alternative of a disjunction, as the only item, after a condition
+        shapes = {
+            "later alternative of a disjunction": [{"t": "disj", "alts": [[copy.deepcopy(base)], [{"t": "mac", "name": name, "args": [var("a")]}]]}],
+            "first alternative of a disjunction": [{"t": "disj", "alts": [[{"t": "mac", "name": name, "args": [var("a")]}], [copy.deepcopy(base)]]}],
+            "nested disjunction": [copy.deepcopy(base), {"t": "disj", "alts": [[copy.deepcopy(base)],
+                                   [{"t": "disj", "alts": [[copy.deepcopy(base)], [copy.deepcopy(base), {"t": "mac", "name": name, "args": [var("a")]}]]}]]}],
+            "only item": [{"t": "mac", "name": name, "args": [var("a")]}],
+        }
+        for shape, body in shapes.items():
+            p = self.copy()
+            p.setdefault("macros", []).append({"name": name, "params": ["a"], "body": body})
+            self.add("macro_rec", f"self new macro never invoked, recursive call as {shape}",
+                     f"new macro {name} invokes itself ({shape}); no rule invokes it", p)
+        p = self.copy()
+        p.setdefault("macros", []).extend([
+            {"name": name, "params": ["a"], "body": [{"t": "disj", "alts": [[copy.deepcopy(base)], [{"t": "mac", "name": name2, "args": [var("a")]}]]}]},
+            {"name": name2, "params": ["a"], "body": [copy.deepcopy(base), {"t": "disj", "alts": [[copy.deepcopy(base)], [{"t": "mac", "name": name, "args": [var("a")]}]]}]}])
+        self.add("macro_rec", "mutual new macros never invoked, recursive calls as later alternatives of disjunctions",
+                 f"new macros {name} and {name2} invoke each other from disjunctions; no rule invokes them", p)
         for j, rule in enumerate(prog["rules"]):
             prog_b = bound_progress(prog, rule)
             n = len(rule["body"])
